@@ -640,12 +640,15 @@ class DiffXWriter(object):
         elif isinstance(content, bytes):
             newline = newline.encode(newline_encoding)
 
-        # Encode the content and newline in the specified encoding.
+        # Encode the content and newline in the specified encoding. If there's
+        # no encoding at all (the DiffX file doesn't specify one), text can
+        # only be represented if it's plain ASCII, as is the case for
+        # metadata.
         if isinstance(newline, str):
-            newline = newline.encode(encoding)
+            newline = newline.encode(newline_encoding)
 
         if isinstance(content, str):
-            content = content.encode(encoding)
+            content = content.encode(newline_encoding)
 
         # Remove the newline's BOM, if needed (depending on the encoding)
         # so that we can safely append it to lines when splitting.
